@@ -16,7 +16,8 @@ EXPLANATION = (
     "counters cannot leak: change_state deletes both before it publishes, the fan-out delegates move both out of the context before "
     "publishing to the branches; (R5) States.Runtime / States.ExecutionTimeout / Task.Terminated bypass both scans. Not decided: sequences "
     "of task outcomes."
-    " (R8) in the join a removal of RetryCount and RetryTimeout from the context dominates every handle_error/change_state call, and what is restored is the fan-out state's own pair from the Branch record; (R9) nothing that can raise a catchable error is reachable from the push of the placeholder Branch record in a fan-out delegate unless the handlers pop it.")
+    " (R8) in the join a removal of RetryCount and RetryTimeout from the context dominates every handle_error/change_state call, and what is restored is the fan-out state's own pair from the Branch record; (R9) nothing that can raise a catchable error is reachable from the push of the placeholder Branch record in a fan-out delegate unless the handlers pop it."
+    " (R10) the attempt count compared with a Retrier's MaxAttempts is looked up through the loop variable of the retrier scan (each Retrier keeps its own count); reported on the current tree as D69.")
 RULE_TEXT = "obligation = one structural fact of the retry/catch algorithm at a named site; non-trivial = distinct (rule, site)"
 
 UNRECOVERABLE = {"States.Runtime", "States.ExecutionTimeout", "Task.Terminated", "States.ExecutionHistoryLimitExceeded"}   # the last one since fix d8e1785: a quota of the execution, not an error of the state entered
@@ -305,4 +306,5 @@ def run(chk, ctx):
     from . import round5
     round5.join_drops_branch_retry_info(chk, ctx)
     round5.placeholder_not_visible_to_error_handling(chk, ctx)
+    round5.retrier_counts_are_per_retrier(chk, ctx)
     chk.assume("one retry counter per state (the engine does not count per retrier; the property's wording does not pin this down)")
